@@ -5,6 +5,7 @@ import (
 	"go/ast"
 	"go/token"
 	"go/types"
+	"sort"
 
 	"gvc/internal/contract"
 	"gvc/internal/smt"
@@ -176,6 +177,12 @@ func (e *Engine) execStmt(st *State, s ast.Stmt) ([]outcome, error) {
 		return e.execTypeSwitch(st, s)
 	case *ast.DeferStmt:
 		// only `defer f.Close()`-style calls whose effect no contract speaks about
+		if fn := e.staticCallee(s.Call); fn != nil {
+			if con := e.Contracts.Funcs[e.methodKeyAt(s.Call, fn)]; con != nil && len(con.Attrs["deferrable"]) > 0 {
+				// a deferred call whose contract says it has no effect any contract speaks about
+				return fall(st), nil
+			}
+		}
 		if DeferHook != nil {
 			if ok, err := DeferHook(e, st, s); ok || err != nil {
 				return fall(st), err
@@ -299,7 +306,7 @@ func (e *Engine) assign(st *State, lhs ast.Expr, v Val) error {
 		if err != nil {
 			return err
 		}
-		idx := smt.IntLit(sel.Index()[0])
+		idx := smt.IntLit(e.FID(base.Ty, sel.Index()[0]))
 		if _, ok := base.Ty.Underlying().(*types.Pointer); ok {
 			e.oblige(st, "safety", "nil-deref("+describe(l, e.Fset)+")", l.Pos(), smt.Neq(base.T, NilV))
 			obj := smt.App(smt.V, "select", st.heap, base.T)
@@ -514,6 +521,15 @@ func (e *Engine) execTypeSwitch(st *State, s *ast.TypeSwitchStmt) ([]outcome, er
 // assignedIn collects the local variables assigned in a statement, and whether
 // the heap may be written.
 func (e *Engine) assignedIn(n ast.Node) (map[*types.Var]bool, bool) {
+	if e.ghostMod == nil {
+		e.ghostMod = map[string]bool{}
+	}
+	if e.fieldW == nil {
+		e.fieldW = map[int]bool{}
+	}
+	if e.wholeAssigned == nil {
+		e.wholeAssigned = map[*types.Var]bool{}
+	}
 	vars := map[*types.Var]bool{}
 	heap := false
 	var root func(x ast.Expr) *types.Var
@@ -527,6 +543,7 @@ func (e *Engine) assignedIn(n ast.Node) (map[*types.Var]bool, bool) {
 		case *ast.IndexExpr:
 			if _, ok := e.typeOf(x.X).Underlying().(*types.Pointer); ok {
 				heap = true
+				e.fieldWAll = true
 				return nil
 			}
 			return root(x.X)
@@ -534,12 +551,18 @@ func (e *Engine) assignedIn(n ast.Node) (map[*types.Var]bool, bool) {
 			if t := e.typeOf(x.X); t != nil {
 				if _, ok := t.Underlying().(*types.Pointer); ok {
 					heap = true
+					if sel := e.info().Selections[x]; sel != nil && len(sel.Index()) == 1 {
+						e.noteFieldWrite(e.FID(e.typeOf(x.X), sel.Index()[0]), x.X)
+					} else {
+						e.fieldWAll = true
+					}
 					return nil
 				}
 			}
 			return root(x.X)
 		case *ast.StarExpr:
 			heap = true
+			e.fieldWAll = true
 		}
 		return nil
 	}
@@ -549,6 +572,9 @@ func (e *Engine) assignedIn(n ast.Node) (map[*types.Var]bool, bool) {
 			for _, l := range s.Lhs {
 				if v := root(l); v != nil {
 					vars[v] = true
+					if _, isIdx := ast.Unparen(l).(*ast.IndexExpr); !isIdx {
+						e.wholeAssigned[v] = true
+					}
 				}
 			}
 		case *ast.IncDecStmt:
@@ -566,6 +592,10 @@ func (e *Engine) assignedIn(n ast.Node) (map[*types.Var]bool, bool) {
 		case *ast.CallExpr:
 			if e.callMayWriteHeap(s) {
 				heap = true
+				e.noteCallFields(s)
+			}
+			for _, g := range e.callGhostAssigns(s) {
+				e.ghostMod[g] = true
 			}
 		case *ast.FuncLit:
 			return false
@@ -594,11 +624,66 @@ func (e *Engine) havoc(st *State, vars map[*types.Var]bool, heap bool) {
 	}
 	sortVars(vs)
 	for _, v := range vs {
+		old := st.vars[v]
 		st.vars[v] = e.Fresh(v.Name(), SortOf(v.Type()))
 		e.typeFacts(st, Val{st.vars[v], v.Type()})
+		// a slice that is only written element-wise keeps its length and nil-ness
+		if _, isSlice := v.Type().Underlying().(*types.Slice); isSlice && !e.wholeAssigned[v] {
+			st.Assume(smt.Eq(smt.App(smt.Int, "s_len", st.vars[v]), smt.App(smt.Int, "s_len", old)))
+			st.Assume(smt.Eq(smt.Eq(st.vars[v], NilV), smt.Eq(old, NilV)))
+		}
 	}
 	if heap {
+		h0 := st.heap
 		st.heap = e.Fresh("heap", smt.Heap)
+		if !e.fieldWAll {
+			// automatic loop frame: the loop writes (any object's) fields only at
+			// the indices collected from its assignments and its callees' assigns
+			// clauses; every other field of every object keeps its value
+			p := smt.T{S: "p?f", Sort: smt.V}
+			j := smt.T{S: "j?f", Sort: smt.Int}
+			var ne []smt.T
+			for _, idx := range sortedInts(e.fieldW) {
+				cond := smt.Neq(j, smt.IntLit(idx))
+				// written only through variables the loop does not assign: other objects keep the field
+				if bases, ok := e.fieldWObj[idx]; ok && len(bases) > 0 {
+					var bs []*types.Var
+					allStable := true
+					for b := range bases {
+						if vars[b] {
+							allStable = false
+						}
+						if _, has := st.vars[b]; !has {
+							allStable = false
+						}
+						bs = append(bs, b)
+					}
+					if allStable {
+						sortVars(bs)
+						var notObj []smt.T
+						for _, b := range bs {
+							notObj = append(notObj, smt.Neq(p, st.vars[b]))
+						}
+						cond = smt.Or(cond, smt.And(notObj...))
+					}
+				}
+				ne = append(ne, cond)
+			}
+			o1 := smt.App(smt.V, "f_get", smt.App(smt.V, "select", st.heap, p), j)
+			o0 := smt.App(smt.V, "f_get", smt.App(smt.V, "select", h0, p), j)
+			st.Assume(smt.Forall([]smt.Bound{{Name: p.S, Sort: smt.V}, {Name: j.S, Sort: smt.Int}}, smt.Implies(smt.And(ne...), smt.Eq(o1, o0)), o1))
+		}
+	}
+	// ghost state assigned by callees in the loop
+	var gs []string
+	for g := range e.ghostMod {
+		gs = append(gs, g)
+	}
+	sort.Strings(gs)
+	for _, g := range gs {
+		if gv, ok := st.named[g]; ok {
+			st.named[g] = Val{e.Fresh(g, gv.T.Sort), gv.Ty}
+		}
 	}
 	// the effect trace grows in loops that call function values
 	if tr, ok := st.named["$trace"]; ok && e.TraceOn {
@@ -667,6 +752,8 @@ func (e *Engine) execFor(st *State, s *ast.ForStmt, label string) ([]outcome, er
 		}
 		st = outs[0].st
 	}
+	e.ghostMod = map[string]bool{}
+	e.wholeAssigned = map[*types.Var]bool{}
 	mod, heapW := e.assignedIn(s.Body)
 	if s.Post != nil {
 		m2, h2 := e.assignedIn(s.Post)
@@ -702,9 +789,24 @@ func (e *Engine) execFor(st *State, s *ast.ForStmt, label string) ([]outcome, er
 	if ctr != nil {
 		if inc, ok := s.Post.(*ast.IncDecStmt); ok && inc.Tok == token.INC {
 			if id, ok := inc.X.(*ast.Ident); ok && e.info().ObjectOf(id) == ctr {
-				bm, _ := e.assignedIn(s.Body)
-				if !bm[ctr] {
-					if t, ok := st.vars[ctr]; ok && t.Sort == smt.Int {
+				{
+					bm := map[*types.Var]bool{}
+					ast.Inspect(s.Body, func(n ast.Node) bool {
+						switch a := n.(type) {
+						case *ast.AssignStmt:
+							for _, l := range a.Lhs {
+								if id, ok := l.(*ast.Ident); ok && e.info().ObjectOf(id) == ctr {
+									bm[ctr] = true
+								}
+							}
+						case *ast.IncDecStmt:
+							if id, ok := a.X.(*ast.Ident); ok && e.info().ObjectOf(id) == ctr {
+								bm[ctr] = true
+							}
+						}
+						return true
+					})
+					if t, ok := st.vars[ctr]; ok && t.Sort == smt.Int && !bm[ctr] {
 						lo := t
 						lower = &lo
 					}
@@ -774,6 +876,8 @@ func (e *Engine) execRange(st *State, s *ast.RangeStmt, label string) ([]outcome
 	if err != nil {
 		return nil, err
 	}
+	e.ghostMod = map[string]bool{}
+	e.wholeAssigned = map[*types.Var]bool{}
 	mod, heapW := e.assignedIn(s.Body)
 	keyObj, valObj := e.rangeVar(s.Key), e.rangeVar(s.Value)
 	delete(mod, keyObj)
@@ -1031,4 +1135,28 @@ func elemType(t types.Type) types.Type {
 // invariants, otherwise the step obligations are vacuous.
 func (e *Engine) probeLoop(st *State, s ast.Stmt) {
 	e.Probe(st, fmt.Sprintf("loop%d.head", e.loopOrdinal(s)))
+}
+
+// noteFieldWrite records a write to field fid through base expression x.
+func (e *Engine) noteFieldWrite(fid int, x ast.Expr) {
+	e.fieldW[fid] = true
+	if e.fieldWObj == nil {
+		e.fieldWObj = map[int]map[*types.Var]bool{}
+	}
+	id, ok := ast.Unparen(x).(*ast.Ident)
+	var v *types.Var
+	if ok {
+		v, _ = e.info().ObjectOf(id).(*types.Var)
+	}
+	if v == nil {
+		e.fieldWObj[fid] = map[*types.Var]bool{} // any object
+		return
+	}
+	if m, seen := e.fieldWObj[fid]; seen && len(m) == 0 {
+		return // already "any"
+	}
+	if e.fieldWObj[fid] == nil {
+		e.fieldWObj[fid] = map[*types.Var]bool{}
+	}
+	e.fieldWObj[fid][v] = true
 }
